@@ -212,3 +212,25 @@ pub fn h_set_extend<T: Shape, const N: usize, const L: usize>(mode: u8) {
     assert!(post.len == pre.len + newc && post.wf(), "C07.extend: repeats do not consume capacity");
     kani::cover!(newc > 0 || N == 0, "reached");
 }
+
+/// Lookups on containers of a zero-sized element (`Set<(), N>`, `Map<(), (), N>`): the slot
+/// array occupies no bytes, so any lookup that reasons about addresses instead of `len`
+/// goes wrong exactly here.  `() == ()` always, so a well-formed container holds 0 or 1 entry.
+pub fn h_zst_lookup<const N: usize>() {
+    let mut s: Set<(), N> = any_set();
+    let n = s.len();
+    assert!(n <= 1 && n <= N);
+    assert!(s.contains(&()) == (n == 1), "C07.contains: reports presence truthfully (zero-sized element)");
+    assert!(s.get(&()).is_some() == (n == 1), "C07.get: returns the stored element (zero-sized element)");
+    assert!(s.iter().count() == n, "C05.Set: len equals what iteration yields (zero-sized element)");
+    let mut m: crate::Map<(), (), N> = any_map();
+    let k = m.len();
+    assert!(k <= 1);
+    assert!(m.contains_key(&()) == (k == 1), "C01.contains_key: equals model membership (zero-sized entries)");
+    assert!(m.get(&()).is_some() == (k == 1), "C01.get: equals the model lookup (zero-sized entries)");
+    assert!(m.get_key_value(&()).is_some() == (k == 1), "C01.get_key_value: equals the model lookup (zero-sized entries)");
+    assert!(m.get_mut(&()).is_some() == (k == 1), "C01.get_mut: equals the model lookup (zero-sized entries)");
+    assert!(m.remove(&()).is_some() == (k == 1) && m.len() == 0, "C01.remove: removes exactly the binding (zero-sized entries)");
+    assert!(s.remove(&()) == (n == 1) && s.len() == 0 && !s.contains(&()), "C07.remove: removes exactly the element (zero-sized element)");
+    kani::cover!(n == 1 && k == 1, "reached");
+}
